@@ -69,6 +69,38 @@ Proof.
   - exfalso. apply nth_error_None in E. pose proof tab_rev_covers. lia.
 Qed.
 
+(* every entry of the reverse table is either the "invalid" marker or a 5-bit symbol *)
+Lemma tab_rev_values :
+  forallb (fun v => (v =? - Z.of_N (D 18))%Z || (Z.to_N v mod 256 <? 32)) charset_rev = true.
+Proof. vm_compute. reflexivity. Qed.
+
+Lemma to_values_lt32 chars : forall vals, to_values chars = Ok vals -> Forall (fun x => x < 32) vals.
+Proof.
+  induction chars as [|c t IH]; intros vals H; cbn [to_values] in H.
+  - inversion H. constructor.
+  - destruct (D 17 <? c); [discriminate|].
+    destruct (nth_error charset_rev (N.to_nat c)) as [v|] eqn:E; [|discriminate].
+    destruct (v =? _)%Z eqn:Ev; [discriminate|].
+    destruct (to_values t) as [r| |]; cbn [rbind] in H; try discriminate.
+    inversion H. constructor; [|apply IH; reflexivity].
+    pose proof tab_rev_values as Ht. rewrite forallb_forall in Ht.
+    specialize (Ht v (nth_error_In _ _ E)). rewrite Ev in Ht. cbn [orb] in Ht. lia.
+Qed.
+
+(* the payload of an accepted CashAddr string consists of 5-bit symbols *)
+Lemma decode_cashaddr_symbols s p d : decode_cashaddr s = Ok (p, d) -> Forall (fun x => x < 32) d.
+Proof.
+  unfold decode_cashaddr. intros H.
+  destruct (scan s 0 false false (D 0)) as [[[l u] ps]| |]; cbn [rbind] in H; try discriminate.
+  destruct (ps =? D 12); [discriminate|]. destruct (u && l); [discriminate|].
+  destruct (to_values _) as [values| |] eqn:Ev; cbn [rbind] in H; try discriminate.
+  destruct (_ <? D 19); [discriminate|]. destruct (negb _); [discriminate|].
+  injection H as _ <-.
+  apply to_values_lt32 in Ev.
+  rewrite <- (firstn_skipn (length values - N.to_nat (D 20)) values) in Ev.
+  apply Forall_app in Ev. exact (proj1 Ev).
+Qed.
+
 (* ---------- the model never panics ---------- *)
 Theorem decode_cashaddr_no_panic str : is_panic (decode_cashaddr str) = false.
 Proof.
